@@ -29,3 +29,26 @@ def tasks(tier):
 
 def run(hname, cfg, tier, seed):
     return vhd.read_task("C04", cfg, tier, seed)
+
+
+def precheck(tier, seed):
+    import io
+
+    from dissect.hypervisor.disk.vhd import VHD
+    from harness import fixtures
+    from oracles import vhd as spec
+
+    errors, traces = [], 0
+    for rel, dyn in (("fixed.vhd.gz", False), ("dynamic.vhd.gz", True)):
+        data = fixtures.load_gz(rel)
+        obj = VHD(io.BytesIO(data))
+        mem = fixtures.mem_of(data)
+        bs = obj.disk.header.block_size if dyn else 1 << 21
+
+        def real(off, ln, obj=obj):
+            obj.seek(off)
+            return obj.read(ln)
+
+        traces += fixtures.compare(rel, real, lambda g: spec.guest_byte(g, len(data), bs, mem, dyn), obj.size, (bs,), seed,
+                                   errors)
+    return dict(errors=errors, traces=traces, summary="oracle == real reader on fixed.vhd and dynamic.vhd (tests/data)")
